@@ -195,6 +195,62 @@ pub fn judge_obs(case: &Case, robot: &KinematicsWithShape, oc: &OracleCell, out:
     fails
 }
 
+/// Interior nodes of a returned path that no collision check of the run was asked about.
+/// NOT a verdict (the property is about outcomes, not about how they are obtained): it only
+/// tells the fault injector where an obstacle would matter (see `guided_cases`).
+pub fn unchecked_nodes(obs: &Obs) -> Vec<[f64; 6]> {
+    let Ok(path) = &obs.result else { return vec![] };
+    if path.len() < 3 {
+        return vec![];
+    }
+    let checked: std::collections::HashSet<u64> = obs
+        .trace
+        .events
+        .iter()
+        .enumerate()
+        .filter(|(_, (_, k))| *k == Kind::Collision)
+        .map(|(i, _)| obs.trace.where_[i].1)
+        .collect();
+    path[1..path.len() - 1].iter().filter(|n| !checked.contains(&probe::joints_key(n))).copied().collect()
+}
+
+/// Guided fault placement: the same run (same random outcomes, same schedule) in a cell that has
+/// one more obstacle, put exactly where the robot is at an interior path node nobody checked.
+/// The derived case is an ordinary input of the property and is judged by the ordinary clauses.
+pub fn guided_cases(case: &Case, out: &SimOut<Obs>, oc: &OracleCell) -> Vec<Case> {
+    let Ok(obs) = &out.result else { return vec![] };
+    let mut cases = Vec::new();
+    for node in unchecked_nodes(obs).into_iter().take(2) {
+        let poses = oracle::link_poses(oc, &node);
+        // a small cube inside the last link (or the tool) at that posture
+        let (mesh, pose) = match &oc.tool {
+            Some(t) => (t, poses[5]),
+            None => (&oc.links[4], poses[4]),
+        };
+        use parry3d::shape::Shape;
+        let bb = mesh.compute_aabb(&pose);
+        let c = bb.center();
+        let mut cell = case.cell.clone();
+        cell.env.push(EnvSpec {
+            mesh: MeshSpec::cube([0.02, 0.02, 0.02], [0.0; 3], 1),
+            pose: PoseSpec { t: [c.x as f64, c.y as f64, c.z as f64], rpy: [0.0; 3] },
+        });
+        let oc2 = OracleCell::new(&cell);
+        let clear = |q: &[f64; 6]| {
+            let b = oracle::brute_q(&oc2, q, &cell.safety);
+            !b.any_definite() && !b.any_dont_care()
+        };
+        if cell.safety.mode == Mode::NoCheck || !clear(&case.start) || !clear(&case.goal) {
+            continue;
+        }
+        let mut c2 = case.clone();
+        c2.cell = cell;
+        c2.cfg = minimise::with_replay(&case.cfg, out.schedule.clone(), Some(out.rng_record.clone()));
+        cases.push(c2);
+    }
+    cases
+}
+
 pub fn judge(case: &Case) -> Vec<Fail> {
     let robot = Arc::new(case.cell.build_probed_robot());
     let oc = OracleCell::new(&case.cell);
@@ -323,7 +379,7 @@ pub fn tier(name: &str) -> Tier {
     match name {
         "thorough" => Tier { shards: 256, per_shard: 120, enumerate_bases: 2, enumerate_cap: 400, max_try_hi: 500 },
         "smoke" => Tier { shards: 4, per_shard: 8, enumerate_bases: 1, enumerate_cap: 30, max_try_hi: 100 },
-        _ => Tier { shards: 32, per_shard: 40, enumerate_bases: 1, enumerate_cap: 60, max_try_hi: 300 },
+        _ => Tier { shards: 32, per_shard: 60, enumerate_bases: 2, enumerate_cap: 80, max_try_hi: 300 },
     }
 }
 
@@ -347,8 +403,32 @@ pub fn gen_case(seed: u64, shard: u64, run: u64, t: &Tier) -> Option<Case> {
     if cell.safety.mode == Mode::NoCheck && w.chance(0.7) {
         cell.safety.mode = Mode::First;
     }
-    let probe_q = gen::gen_posture(&mut w, &cell.limits);
-    gen::add_environment(&mut w, &mut cell, &probe_q, &k);
+    // the start posture first; obstacles are then placed around a NEIGHBOUR of it (a few planner
+    // steps away along `dir`), so that the start is usually free but right next to an obstacle,
+    // and the goal often lies beyond it: trees get trapped and need several rounds
+    let (lf, lt) = cell.limits.unwrap();
+    let clampq = |q: &mut [f64; 6]| {
+        for j in 0..6 {
+            if lf[j] < lt[j] {
+                q[j] = q[j].clamp(lf[j] + 1e-6, lt[j] - 1e-6);
+            }
+        }
+    };
+    let start0 = gen::gen_posture(&mut w, &cell.limits);
+    let mut dir = [0.0f64; 6];
+    for _ in 0..w.range_usize(1, 3) {
+        dir[w.below(5)] = if w.chance(0.5) { 1.0 } else { -1.0 } * w.range_f64(0.5, 1.0);
+    }
+    let reach = w.range_f64(0.12, 0.6);
+    let mut neighbour = start0;
+    for j in 0..6 {
+        neighbour[j] += dir[j] * reach;
+    }
+    clampq(&mut neighbour);
+    let dense = knobs.chance(0.6);
+    let mut kk = k;
+    kk.sparse = !dense;
+    gen::add_environment(&mut w, &mut cell, &neighbour, &kk);
     let n_env = cell.env.len();
     cell.safety.special.retain(|s| (s.0 as usize) < ENV0 + n_env && (s.1 as usize) < ENV0 + n_env);
     let oc = OracleCell::new(&cell);
@@ -361,33 +441,42 @@ pub fn gen_case(seed: u64, shard: u64, run: u64, t: &Tier) -> Option<Case> {
         let b = oracle::brute_q(&oc, q, &cell.safety);
         !b.any_definite() && !b.any_dont_care()
     };
-    let mut pick = |w: &mut Rng, near: Option<[f64; 6]>| -> Option<[f64; 6]> {
-        for _ in 0..40 {
-            let q = match near {
-                Some(c) if w.chance(0.6) => {
-                    let mut q = c;
-                    for j in 0..6 {
-                        q[j] += w.range_f64(-0.6, 0.6);
-                        // numerically inside non-wrapping limits (not just modulo a full turn):
-                        // only then is the limits box convex for the planner's interpolation
-                        if let Some((f, t)) = &cell.limits {
-                            if f[j] < t[j] {
-                                q[j] = q[j].clamp(f[j] + 1e-6, t[j] - 1e-6);
-                            }
-                        }
-                    }
-                    q
-                }
-                _ => gen::gen_posture(w, &cell.limits),
-            };
-            if free(&q) {
-                return Some(q);
+    // start: the drawn posture, or a nearby one if it happens to collide
+    let mut start = None;
+    for attempt in 0..30 {
+        let mut q = start0;
+        if attempt > 0 {
+            for j in 0..6 {
+                q[j] -= dir[j] * reach * 0.15 * attempt as f64 + w.range_f64(-0.05, 0.05);
             }
+            clampq(&mut q);
         }
-        None
-    };
-    let start = pick(&mut w, None)?;
-    let goal = pick(&mut w, Some(start))?;
+        if free(&q) {
+            start = Some(q);
+            break;
+        }
+    }
+    let start = start?;
+    // goal: beyond the obstacle along `dir`, or anywhere
+    let mut goal = None;
+    for attempt in 0..40 {
+        let mut q = if attempt < 25 && w.chance(0.7) {
+            let mut q = start;
+            let far = reach * w.range_f64(1.5, 4.0);
+            for j in 0..6 {
+                q[j] += dir[j] * far + w.range_f64(-0.15, 0.15);
+            }
+            q
+        } else {
+            gen::gen_posture(&mut w, &cell.limits)
+        };
+        clampq(&mut q);
+        if free(&q) {
+            goal = Some(q);
+            break;
+        }
+    }
+    let goal = goal?;
     let step = match w.below(4) {
         0 => w.range_f64(0.5, 2.0f64).to_radians(),
         1 | 2 => w.range_f64(2.0, 8.0f64).to_radians(),
@@ -402,7 +491,17 @@ pub fn gen_case(seed: u64, shard: u64, run: u64, t: &Tier) -> Option<Case> {
     let (f, _t) = cell.limits.unwrap();
     let two_pi = 2.0 * std::f64::consts::PI;
     let target = |v: &[f64; 6]| -> Vec<f64> { (0..6).map(|j| (v[j] - f[j]).rem_euclid(two_pi)).collect() };
-    let abs = vec![target(&goal), target(&start), vec![0.0; 6]];
+    let mut abs = vec![target(&goal), target(&start), vec![0.0; 6]];
+    // samples within one planner step of the start / goal node, towards the obstacle
+    let norm = dir.iter().map(|x| x * x).sum::<f64>().sqrt().max(1e-9);
+    for (base, sign) in [(&start, 1.0), (&start, 1.0), (&goal, -1.0), (&start, -1.0)] {
+        let frac = w.range_f64(0.3, 0.98);
+        let mut q = *base;
+        for j in 0..6 {
+            q[j] += sign * dir[j] / norm * step * frac;
+        }
+        abs.push(target(&q));
+    }
     let adversarial = *knobs.pick(&[0.0, 0.0, 0.05, 0.3, 0.9]);
     let sched_seed = simctx::mix(&[seed, shard, run, simctx::name_hash("c13.sched")]);
     let rng_seed = simctx::mix(&[seed, shard, run, simctx::name_hash("c13.rng")]);
@@ -432,6 +531,9 @@ fn record(case: &Case, out: &SimOut<Obs>, tally: &mut Tally, scen_hash: u64) {
     if let Ok(o) = &out.result {
         tally.bump("seam_collision_checks", o.trace.collisions);
         tally.bump("seam_samples", o.trace.samples);
+        if o.trace.samples >= 2 {
+            tally.bump("plans_needing_two_or_more_rounds", 1);
+        }
         if o.trace.raised_at.is_some() {
             tally.bump("cancel_flag_actually_raised_during_run", 1);
         }
@@ -485,9 +587,9 @@ pub fn run(tier_name: &str, seed: u64) -> i32 {
             let (ns, nc) = out0.result.as_ref().map(|o| (o.trace.samples, o.trace.collisions)).unwrap_or((0, 0));
             let mut all: Vec<(Case, SimOut<Obs>)> = vec![(base.clone(), out0)];
             // one drawn cancellation per scenario
-            let cancel = match w.below(6) {
+            let cancel = match if ns >= 2 { w.below(8) } else { w.below(6) } {
                 0 => Cancel::Pre,
-                1 | 2 if ns > 0 => Cancel::At(Kind::Sample, 1 + w.below(ns as usize) as u64),
+                1 | 2 | 6 | 7 if ns > 0 => Cancel::At(Kind::Sample, 1 + w.below(ns as usize) as u64),
                 3 | 4 if nc > 0 => Cancel::At(Kind::Collision, 1 + w.below(nc as usize) as u64),
                 _ => Cancel::Async(w.below(((ns * 8 + nc * 2) as usize).max(4)) as u32),
             };
@@ -495,7 +597,7 @@ pub fn run(tier_name: &str, seed: u64) -> i32 {
             c.cancel = cancel;
             cases.push(c);
             // exhaustive cancellation points for a few base runs
-            if enumerated < t.enumerate_bases && ns + nc > 0 && ns + nc <= t.enumerate_cap {
+            if enumerated < t.enumerate_bases && ns >= 2 && ns + nc <= t.enumerate_cap {
                 enumerated += 1;
                 tally.bump("base_runs_with_every_cancel_point_enumerated", 1);
                 for k in 1..=ns {
@@ -513,6 +615,23 @@ pub fn run(tier_name: &str, seed: u64) -> i32 {
                 let out = execute(&robot, &c, true);
                 all.push((c, out));
             }
+            // guided fault placement on nodes that were never collision-checked (none on a planner
+            // that checks every node it adds)
+            let mut guided: Vec<(Case, SimOut<Obs>)> = Vec::new();
+            for (c, out) in all.iter().take(2) {
+                if let Ok(o) = &out.result {
+                    let n = unchecked_nodes(o).len();
+                    if n > 0 {
+                        tally.bump("paths_with_nodes_no_collision_check_was_asked_about", 1);
+                    }
+                }
+                for g in guided_cases(c, out, &oc) {
+                    let grobot = Arc::new(g.cell.build_probed_robot());
+                    let gout = execute(&grobot, &g, true);
+                    tally.bump("fault_obstacle_placed_on_unchecked_path_node", 1);
+                    guided.push((g, gout));
+                }
+            }
             // determinism (clause h): the fault-free run again, bit for bit
             if run % 8 == 0 {
                 let again = execute(&robot, &base, true);
@@ -522,6 +641,26 @@ pub fn run(tier_name: &str, seed: u64) -> i32 {
                 tally.bump("determinism_reruns", 1);
             }
             let mut seen = BTreeSet::new();
+            for (g, gout) in &guided {
+                record(g, gout, &mut tally, scen_hash ^ 0x6D);
+                let grobot = g.cell.build_probed_robot();
+                let goc = OracleCell::new(&g.cell);
+                for f in judge_obs(g, &grobot, &goc, gout) {
+                    if !seen.insert((f.clause.clone(), f.signature.clone())) {
+                        continue;
+                    }
+                    tally.bump("raw_failures", 1);
+                    if judge(g).iter().any(|x| x.clause == f.clause && x.signature == f.signature) {
+                        tally.violations.push(Violation {
+                            property: "C13".into(),
+                            clause: f.clause.clone(),
+                            signature: f.signature.clone(),
+                            detail: format!("{} [obstacle placed at a path node the planner never checked]", f.detail),
+                            case: json!({"check": "C13", "case": g}),
+                        });
+                    }
+                }
+            }
             for (c, out) in &all {
                 record(c, out, &mut tally, scen_hash);
                 if tally.samples.len() < 2 {
